@@ -26,21 +26,21 @@ func (Prop) Describe() core.Description {
 	return core.Description{
 		Level: "fault_enumeration",
 		Rule: "enumerated part (walked completely, every tier): 6 helpers x {V, *P} x 8 behaviours of the type under test x 4 Before x 4 After hook behaviours (a fifth, panicking with an error value whose Error method cannot be called, has a block of its own) x 25 predicate kinds (met, unmet, near-miss, one-byte-longer, empty, dot-must-not-cross-newline and three caller-written silent variants) x 3 constraints x 4 positions {only, first, middle, last of 3} (+ TypeHelper variants, + types lacking the interface under both FailNow environments); " +
-			"seeded part: lists of 0-12 cases (one list in 40: 13-64 cases) with tape-chosen combinations, several faults per list, 15 type shapes (V, *P, P as a value type with pointer-receiver methods, Doc with an interface-typed field, *L with a memoising String, *V, interface-typed Both holding *P or *Q, string-kinded Str, slice-kinded Bytes, map-kinded Map, integer-kinded Num, uint8-kinded Byte, OnlyM, OnlyU, None), both TestingT environments, optional recording TypeHelper, singleton re-runs of every case. " +
+			"seeded part: lists of 0-12 cases (one list in 40: 13-64 cases) with tape-chosen combinations, several faults per list, 18 type shapes (V, *P, TextOnly/BinOnly/JSONOnly implementing one encoding each, P as a value type with pointer-receiver methods, Doc with an interface-typed field, *L with a memoising String, *V, interface-typed Both holding *P or *Q, string-kinded Str, slice-kinded Bytes, map-kinded Map, integer-kinded Num, uint8-kinded Byte, OnlyM, OnlyU, None), both TestingT environments, optional recording TypeHelper, singleton re-runs of every case. " +
 			"Oracle written from the statement: per case, failure reported <=> applicable and unsatisfied (L2), nothing for inapplicable cases (L4), no panic escapes (L3), type lacking the interface reported (L1), hooks receive their case's list position (L5). " +
 			"A list is non-trivial if a collaborator fault fired in an applicable case; distinct = distinct (helper, shape, position class, constraint, behaviour, hooks, predicate, verdict) tuples reached",
 		Assumptions: []string{
 			"a panic of the type under test counts as an error whose text begins 'panic: <value>\\n' (pinned by the library's own Test_MarshalText_Panic and CHANGELOG 0.8.0)",
 			"two corners the statement leaves open are not generated: an error returned with a non-nil but empty slice; hooks that mutate the case they are handed. A non-empty list for a type lacking the interface is expected to be reported whatever the constraints of its cases (the type is a property of T, not of a case; anchor: interface check on the first case)",
 			"failures are attributed to cases by bracketing recorder events between the scripted collaborator invocations of consecutive cases",
-			"lists longer than 64 cases and types other than the fifteen scripted shapes are outside the bound",
+			"lists longer than 64 cases and types other than the eighteen scripted shapes are outside the bound",
 		},
 		Real: []string{"test.MarshalText/Binary/JSON", "test.UnmarshalText/Binary/JSON", "callForCase, safe*, castToFunc, helperNew, helperAssert*", "AnyError/Error/ErrorHasPrefix/ErrorHasSuffix/ErrorMatch", "testify assert"},
 		Stub: []string{"types under test (scripted V, *P, *V, interface-typed Both, Str, Bytes, Map, Num, OnlyM, OnlyU, None)", "Before/After hooks (scripted)", "TestingT (recorder; FailNow returns / exits goroutine)", "TypeHelper (recording)"},
 		Notes: map[string]string{
 			"sim_time_note": "C20 has no clock in it; sim_time_ns is 0 by construction",
 		},
-		RequiredProbesQuick: []string{"panic_recovered_call", "panic_recovered_hook", "error_with_data", "wrong_data_only", "inapplicable_faulty", "goexit_env", "invalid_regexp", "lacking_interface", "lacking_interface_all_inapplicable", "typehelper_used", "nil_receiver", "nil_value_unmarshal", "nil_interface_value", "long_list", "before_hook_adjusts_case", "asymmetric_typehelper_wildcard", "cloning_typehelper", "emptied_not_nil", "listed_nil_value", "second_concrete_type", "listed_empty_data", "json_equivalent_wrong_data", "lenient_equal_method", "panic_value_with_uncallable_error_method", "nil_interface_value_first_case", "listed_nil_input", "pointer_receiver_value_type", "before_hook_installs_or_clears_predicate", "big_payload", "interface_field_holding_a_map", "memoising_stringer", "other_dynamic_type_behind_interface"},
+		RequiredProbesQuick: []string{"panic_recovered_call", "panic_recovered_hook", "error_with_data", "wrong_data_only", "inapplicable_faulty", "goexit_env", "invalid_regexp", "lacking_interface", "lacking_interface_all_inapplicable", "typehelper_used", "nil_receiver", "nil_value_unmarshal", "nil_interface_value", "long_list", "before_hook_adjusts_case", "asymmetric_typehelper_wildcard", "cloning_typehelper", "emptied_not_nil", "listed_nil_value", "second_concrete_type", "listed_empty_data", "json_equivalent_wrong_data", "lenient_equal_method", "panic_value_with_uncallable_error_method", "nil_interface_value_first_case", "listed_nil_input", "pointer_receiver_value_type", "before_hook_installs_or_clears_predicate", "big_payload", "interface_field_holding_a_map", "memoising_stringer", "other_dynamic_type_behind_interface", "single_encoding_type"},
 	}
 }
 
@@ -88,8 +88,12 @@ func enumH2() int { return 6 * 2 * 3 * len(badErrPreds) * nPos }
 func enumH3() int { return 6 * 2 * 2 * 2 }
 func enumH4() int { return 2 * nBeh * len(nilDataPreds) * nPos * 2 }
 func enumWave7() int {
-	return enumH1() + enumH2() + enumH3() + enumH4() + enumH5() + enumH6() + enumH7()
+	return enumH1() + enumH2() + enumH3() + enumH4() + enumH5() + enumH6() + enumH7() + enumH8()
 }
+
+// types that implement one encoding only: 6 helpers x {TextOnly, BinOnly, JSONOnly} x both
+// environments x {1, 3 cases} x behaviour
+func enumH8() int { return 6 * 3 * 2 * 2 * nBeh }
 
 // the struct with an interface-typed field and the memoising Stringer: 6 helpers x {Doc, *L} x
 // behaviour x {no predicate, AnyError} x position x TypeHelper {nil, recording} x {+~,
@@ -152,6 +156,25 @@ func wave7Spec(r int) (ls listSpec, ok bool) {
 		ls.enc, ls.dir, ls.shape = r/2, r%2, shIface
 		if own {
 			c.constraint = 1 + ls.dir
+		}
+		ls.cases = []caseSpec{c}
+		if long {
+			ls.cases = []caseSpec{c, plain, plain}
+		}
+	case r >= enumH1()+enumH2()+enumH3()+enumH4()+enumH5()+enumH6()+enumH7():
+		r -= enumH1() + enumH2() + enumH3() + enumH4() + enumH5() + enumH6() + enumH7()
+		c := caseSpec{payload: "x"}
+		c.beh = r % nBeh
+		r /= nBeh
+		long := r%2 == 1
+		r /= 2
+		ls.goexit = r%2 == 1
+		r /= 2
+		ls.shape = shTextOnly + r%3
+		r /= 3
+		ls.enc, ls.dir = r/2, r%2
+		if c.beh == bPanicAfterSet && ls.dir == dirMarshal {
+			return ls, false
 		}
 		ls.cases = []caseSpec{c}
 		if long {
@@ -568,6 +591,9 @@ func probes(res *core.Result, ls listSpec, l *listRun) {
 	if ls.shape == shMemo && len(ls.cases) > 0 {
 		res.Probes.Inc("memoising_stringer")
 	}
+	if ls.shape >= shTextOnly && ls.shape <= shJSONOnly && len(ls.cases) > 0 {
+		res.Probes.Inc("single_encoding_type")
+	}
 	if !ls.hasInterface() {
 		res.Probes.Inc("lacking_interface")
 		anyApp := false
@@ -761,7 +787,7 @@ func (Prop) RunEnum(i int, o core.RunOpts) *core.Result {
 // bigPayload is 70 400 bytes long.
 var bigPayload = strings.Repeat("0123456789abcdef", 4400)
 
-var shapeWeights = [...]int{shV, shV, shV, shP, shP, shP, shOnlyM, shOnlyU, shNone, shIface, shIface, shPV, shPV, shStr, shStr, shBytes, shBytes, shMap, shMap, shNum, shNum, shByte, shPval, shPval, shDoc, shDoc, shMemo, shMemo}
+var shapeWeights = [...]int{shV, shV, shV, shP, shP, shP, shOnlyM, shOnlyU, shNone, shIface, shIface, shPV, shPV, shStr, shStr, shBytes, shBytes, shMap, shMap, shNum, shNum, shByte, shPval, shPval, shDoc, shDoc, shMemo, shMemo, shTextOnly, shBinOnly, shJSONOnly}
 
 func genCase(t *core.Tape) caseSpec {
 	c := caseSpec{}
